@@ -26,3 +26,12 @@ Definition limits_of (name : string) : Z * option Z :=
   end.
 Definition unsigned_ctor_of (name : string) (z : Z) : res prim :=
   unsigned_ctor (fst (limits_of name)) (snd (limits_of name)) z.
+
+(* the whole table as the implementation sees it: per entry, the number its name maps to and the
+   name that number maps back to (correspondence case 'table') *)
+Definition table_dump (tb : table) : list Z :=
+  flat_map (fun p =>
+    match tbl_num tb (fst p) with
+    | Some n => zN n :: match tbl_name tb n with Some s => canon_str s | None => [(-1)%Z] end
+    | None => [(-2)%Z]
+    end) tb.
